@@ -6,7 +6,7 @@ for p in props:
         by_file.setdefault(f, set()).add(p['id'])
 # C09 covers every public function of these packages
 out=[]
-for d in sorted(glob.glob('/verif/harmless/H*/harmless_*.diff')):
+for d in sorted(glob.glob('/verif/harmless/*/harmless_*.diff')):
     own=os.path.basename(d).split('_')[1]
     files=re.findall(r'^\+\+\+ b/(.*)$', open(d).read(), flags=re.M)
     pids=set()
